@@ -475,11 +475,13 @@ static std::string addr_str(const struct sockaddr*sa){
 	if(sa->sa_family==AF_UNIX){ return std::string("unix:")+((const sockaddr_un*)sa)->sun_path; }
 	return "?";
 }
-static bool readable(Obj&o){ if(o.conn_failed) return true; switch(o.kind){ case Obj::STREAM: return !o.rx->empty()||o.rx->wr_closed||*o.reset; case Obj::LISTENER: return !o.backlog.empty(); case Obj::FILE_: case Obj::URANDOM: return true; default: return false; } }
+static bool pipe_read_end(Obj&o){ return o.pipe_end && o.kind==Obj::STREAM && o.rx && o.rx->cap>0; }
+// the read end of a pipe whose last writer has gone and that holds no data reports a hang-up only (POLLHUP / EPOLLHUP without the "in" bit); select() counts that as readable
+static bool readable(Obj&o){ if(o.conn_failed) return true; if(pipe_read_end(o)) return !o.rx->empty(); switch(o.kind){ case Obj::STREAM: return !o.rx->empty()||o.rx->wr_closed||*o.reset; case Obj::LISTENER: return !o.backlog.empty(); case Obj::FILE_: case Obj::URANDOM: return true; default: return false; } }
 static bool writable(Obj&o){ if(o.conn_failed) return true; switch(o.kind){ case Obj::STREAM: return o.tx->room()>0||o.tx->rd_closed||*o.reset; case Obj::FILE_: return true; default: return false; } }
 // hang-up as Linux reports it: a local (AF_UNIX) stream or pipe hangs up when the peer has closed; a TCP socket only when BOTH directions are shut - the peer's FIN alone
 // gives "readable" (data, then end of file), POLLHUP comes once this side has shut down its sending side too - or after a reset
-static bool hup(Obj&o){ if(o.conn_failed) return true; if(o.kind!=Obj::STREAM) return false; if(*o.reset) return true; if(o.family==AF_UNIX) return o.rx->wr_closed && o.tx->rd_closed; return o.rx->wr_closed && o.tx->wr_closed; }
+static bool hup(Obj&o){ if(o.conn_failed) return true; if(o.kind!=Obj::STREAM) return false; if(pipe_read_end(o)) return o.rx->wr_closed; if(*o.reset) return true; if(o.family==AF_UNIX) return o.rx->wr_closed && o.tx->rd_closed; return o.rx->wr_closed && o.tx->wr_closed; }
 static bool err(Obj&o){ return o.conn_failed || (o.kind==Obj::STREAM && *o.reset); }
 
 static void make_pair(std::shared_ptr<Obj>&a,std::shared_ptr<Obj>&b,size_t cap_ab,size_t cap_ba){
